@@ -317,6 +317,19 @@ impl<'a> ArithmeticEvaluator<'a> {
                     self.interm.push(ArithmeticTerm::Reg(r));
                 }
                 ArithTermRef::Op(lvl, cell, name, arity) => {
+                    // The value of an operator node may live in any free register: the
+                    // arithmetic instructions address their operands explicitly. Placing
+                    // the outermost node in the argument register A_k (Level::Shallow)
+                    // overwrites whatever is live there -- a head argument still needed
+                    // later in the first chunk, or the cut point of an enclosing
+                    // if-then-else / negation -- so always allocate a free temporary.
+                    let lvl = if let Level::Shallow = lvl {
+                        self.marker.advance_arg();
+                        Level::Deep
+                    } else {
+                        lvl
+                    };
+
                     self.marker
                         .mark_non_var::<QueryInstruction>(lvl, term_loc, cell, &mut code);
 
